@@ -593,7 +593,33 @@ def run_unit_sym(unit, known_ids, validate_n=2, stop_on_violation=False):
                 rec['traces'].append(dict(values=_model_to_values(m, h.symvars), observed=obs))
                 n_traces[0] += 1
 
-    res = S.explore(body, max_paths=unit.max_paths, wall_s=unit.wall_s, timeout_ms=unit.timeout_ms)
+    # hard wall limit for a single path (a path can contain many solver calls): SIGALRM between solver calls
+    import signal
+
+    class _HardTimeout(BaseException):
+        pass
+
+    def _on_alarm(signum, frame):
+        raise _HardTimeout()
+    hard = max(30.0, 2.0 * unit.wall_s)
+    old_handler = None
+    try:
+        old_handler = signal.signal(signal.SIGALRM, _on_alarm)
+        signal.setitimer(signal.ITIMER_REAL, hard)
+    except (ValueError, AttributeError):
+        old_handler = None
+    try:
+        res = S.explore(body, max_paths=unit.max_paths, wall_s=unit.wall_s, timeout_ms=unit.timeout_ms)
+    except _HardTimeout:
+        S.Ctx.cur = None
+        res = dict(n_paths=rec['paths'], complete=False, stats=S.Stats(), transitions=0, wall_s=hard)
+    finally:
+        try:
+            signal.setitimer(signal.ITIMER_REAL, 0)
+            if old_handler is not None:
+                signal.signal(signal.SIGALRM, old_handler)
+        except (ValueError, AttributeError):
+            pass
     rec['complete'] = res['complete']
     rec['transitions'] = res['transitions']
     rec['solver'] = res['stats'].as_dict()
